@@ -21,10 +21,13 @@ type Job struct {
 	Trace    []int  `json:"trace,omitempty"`
 	// PrefixN: ranges of the draws the parent already made on this stream
 	// (e.g. the part selection of a Multi harness); the child repeats them first
-	PrefixN []int  `json:"prefix_n,omitempty"`
-	Tier    string `json:"tier"`
-	Verbose bool   `json:"verbose"`
-	Out     string `json:"out"`
+	PrefixN []int `json:"prefix_n,omitempty"`
+	// Params are free-form parameters for the child (used by parent-side
+	// harnesses that run several children per run, e.g. C05).
+	Params  map[string]string `json:"params,omitempty"`
+	Tier    string            `json:"tier"`
+	Verbose bool              `json:"verbose"`
+	Out     string            `json:"out"`
 }
 
 // JobResult is what the child writes back.
@@ -77,12 +80,17 @@ func (e External) Runs(tier string) int {
 
 // Run implements Harness.
 func (e External) Run(ch *choice.Source, opt Options) Result {
+	return e.RunJob(ch, opt, nil, 0)
+}
+
+// RunJob runs one child with extra parameters.
+func (e External) RunJob(ch *choice.Source, opt Options, params map[string]string, maxProcs int) Result {
 	dir, err := os.MkdirTemp("", "verif-job-")
 	if err != nil {
 		return Result{HarnessBug: err.Error()}
 	}
 	defer os.RemoveAll(dir)
-	job := Job{Property: e.JobProperty(), Seed: ch.Seed(), Replay: ch.IsReplay(), Trace: ch.Input(), PrefixN: append([]int{}, ch.Ns()...), Tier: opt.Tier, Verbose: opt.Verbose, Out: filepath.Join(dir, "result.json")}
+	job := Job{Property: e.JobProperty(), Seed: ch.Seed(), Replay: ch.IsReplay(), Trace: ch.Input(), PrefixN: append([]int{}, ch.Ns()...), Tier: opt.Tier, Verbose: opt.Verbose, Out: filepath.Join(dir, "result.json"), Params: params}
 	jb, _ := json.Marshal(job)
 	jobPath := filepath.Join(dir, "job.json")
 	if err := os.WriteFile(jobPath, jb, 0o644); err != nil {
@@ -99,6 +107,9 @@ func (e External) Run(ch *choice.Source, opt Options) Result {
 	}
 	cmd := exec.Command(bin, "-test.run", "^"+e.TestName+"$", "-test.timeout", "0", "-test.count", "1")
 	cmd.Env = append(os.Environ(), "VERIF_JOB="+jobPath, "TMPDIR="+dir)
+	if maxProcs > 0 {
+		cmd.Env = append(cmd.Env, fmt.Sprintf("GOMAXPROCS=%d", maxProcs))
+	}
 	cmd.Dir = dir
 	var out bytes.Buffer
 	cmd.Stdout = &out
